@@ -132,6 +132,7 @@ class Workflow(metaclass=WorkflowMeta):
         from workflows.runtime.verbose import VerboseDecorator
 
         from .representation.validate import (
+            _collect_catch_error_handlers,
             _collect_events,
             _ensure_start_event_class,
             _ensure_stop_event_class,
@@ -153,6 +154,16 @@ class Workflow(metaclass=WorkflowMeta):
         # Populated by _validate(); empty until a successful validation runs.
         self._catch_error_handlers: dict[str, CatchErrorHandler] = {}
         self._handler_for_step: dict[str, str] = {}
+        if disable_validation:
+            # _validate() never runs in this mode, but the @catch_error routing
+            # tables are run-time configuration: without them no handler is
+            # ever entered. Inconsistent handler sets are left to validate().
+            try:
+                self._catch_error_handlers, self._handler_for_step = (
+                    _collect_catch_error_handlers(step_configs)
+                )
+            except WorkflowValidationError:
+                pass
         self._events = _collect_events(step_configs)
         # Resource management
         self._resource_manager = resource_manager or ResourceManager()
